@@ -3,6 +3,7 @@ CONSTANTS
   Depth = 0
   ChainDepth = 0
   SkipAllVClose = TRUE
+  IfGuard = TRUE
   Emit = FALSE
 POSTCONDITION TraceAccepted
 CHECK_DEADLOCK FALSE
